@@ -1358,6 +1358,48 @@ func c15GroupWalk(c *Ctx) {
 			r.Check(w2 == nil, "C15.group-walk", key+":not-other", p.IPos(call), "only that cell", fmt.Sprintf("after %s the new group is entered through %s", pr.cycle, other))
 		}
 	}
+	// backward entry into an aliased group starts from the grid's last column — the one the forward walk ends on
+	if LC := p.Func(fnLastCell); LC != nil {
+		ffc := callsTo(LC, false, "(*completion.group).findFirstCandidate")
+		if len(ffc) == 0 {
+			r.OK("C15.group-walk", fnLastCell+":aliased-start", p.Pos(LC.Pos()), "lastCell does not search a candidate: no aliased start to judge")
+		}
+		for i, cl := range ffc {
+			call := cl.(ssa.Instruction)
+			var last *ssa.Store
+			eachInstr(LC, func(in ssa.Instruction) {
+				st, ok := isFieldStore(in, tGroup, "posX")
+				if !ok || !instrDominates(st, call) {
+					return
+				}
+				if last == nil || instrDominates(last, st) {
+					last = st
+				}
+			})
+			good, what := false, "no store of posX before the search"
+			if last != nil {
+				pv := polyOf(last.Val, nil)
+				what = pv.String()
+				// len(columnsWidth) - 1, or maxX - 1
+				if len(pv) == 2 && pv[""] == -1 {
+					for k, v := range pv {
+						if k == "" || v != 1 {
+							continue
+						}
+						if strings.HasPrefix(k, "len(") {
+							// which sequence: the leaf is len(<load>): accept when that load is of columnsWidth
+							if c2, ok := findLenArg(last.Val); ok && isFieldLoad(c2, tGroup, "columnsWidth") {
+								good = true
+							}
+						} else if isFieldLoadByName(last.Val, k, tGroup, "maxX") {
+							good = true
+						}
+					}
+				}
+			}
+			r.Check(good, "C15.group-walk", fmt.Sprintf("%s:aliased-start#%d", fnLastCell, i), p.IPos(call), "the search starts from the last column of the grid", "entering an aliased group backwards, the search for the last candidate starts from column "+what+" instead of the grid's last column (len(columnsWidth)-1): the walk of an aliased group goes column by column, so when the last row is shorter than another row the columns to its right are never reached by menu-complete-backward")
+		}
+	}
 	// wrap-around of the group walk
 	for _, d := range []struct {
 		fn      string
@@ -1539,4 +1581,30 @@ func groupWrap(g *ssa.Function, forward bool) (bool, string) {
 		return false, "the previous current group keeps its flag"
 	}
 	return true, "wraps at the end, steps by one inside, clears the old flag"
+}
+
+// findLenArg: the argument of the len() call inside an expression `len(x) ± k`.
+func findLenArg(v ssa.Value) (ssa.Value, bool) {
+	switch x := v.(type) {
+	case *ssa.Call:
+		if b, ok := x.Call.Value.(*ssa.Builtin); ok && b.Name() == "len" && len(x.Call.Args) == 1 {
+			return x.Call.Args[0], true
+		}
+	case *ssa.BinOp:
+		if a, ok := findLenArg(x.X); ok {
+			return a, true
+		}
+		return findLenArg(x.Y)
+	}
+	return nil, false
+}
+
+// isFieldLoadByName: the leaf named `name` inside v is a load of tn.field.
+func isFieldLoadByName(v ssa.Value, name, tn, field string) bool {
+	switch x := v.(type) {
+	case *ssa.BinOp:
+		return isFieldLoadByName(x.X, name, tn, field) || isFieldLoadByName(x.Y, name, tn, field)
+	default:
+		return v.Name() == name && isFieldLoad(v, tn, field)
+	}
 }
